@@ -88,9 +88,9 @@ def rule_pr1(ctx: Ctx) -> RuleResult:
 
 
 COMPLETION_EMITTERS = {
-    ("rxsci/operators/scan.py", "scan_mux._scan.on_subscribe"): "reduce / terminator results depend on the end of the key",
-    ("rxsci/operators/last.py", "last_mux._last.on_subscribe"): "the last item is only known at the end of the key",
-    ("rxsci/data/pad.py", "pad_end_mux._pad_end_mux.on_subscribe"): "end padding follows the last item",
+    ("rxsci/operators/scan.py", "scan_mux"): "reduce / terminator results depend on the end of the key",
+    ("rxsci/operators/last.py", "last_mux"): "the last item is only known at the end of the key",
+    ("rxsci/data/pad.py", "pad_end_mux"): "end padding follows the last item",
 }
 
 
@@ -111,7 +111,7 @@ def rule_pr2(ctx: Ctx) -> RuleResult:
                     for m in mux_emissions(p):
                         if m.event is not None and m.event.kind == "Next":
                             emits = (kind, cfg, p, m)
-            key = (site.module.relpath, site.short)
+            key = (site.module.relpath, site.short.split(".")[0])
             if emits is not None:
                 found.add(key)
                 kind, cfg, p, m = emits
@@ -133,15 +133,15 @@ def rule_pr2(ctx: Ctx) -> RuleResult:
                                          "a streaming scan must not emit items at completion", extra="scan-streaming"))
     # plain operators that buffer by design are named, any other plain on_completed that emits items is reported
     plain_allowed = {
-        ("rxsci/operators/scan.py", "scan_obs._scan.on_subscribe"): "reduce / terminator",
-        ("rxsci/data/to_deque.py", "to_deque._to_deque.on_subscribe"): "to_deque buffers by contract (sort)",
-        ("rxsci/framing/line.py", "unframe._unframe.on_subscribe"): "trailing unterminated line",
-        ("rxsci/compression/z.py", "compress._compress.on_subscribe"): "codec flush",
-        ("rxsci/compression/z.py", "decompress._decompress.on_subscribe"): "codec flush",
-        ("rxsci/compression/zstd.py", "compress._compress.on_subscribe"): "codec flush",
-        ("rxsci/compression/zstd.py", "decompress._decompress.on_subscribe"): "codec flush",
-        ("rxsci/data/codec.py", "encode._encode.on_subscribe"): "incremental codec flush",
-        ("rxsci/data/codec.py", "decode._decode.on_subscribe"): "incremental codec flush",
+        ("rxsci/operators/scan.py", "scan_obs"): "reduce / terminator",
+        ("rxsci/data/to_deque.py", "to_deque"): "to_deque buffers by contract (sort)",
+        ("rxsci/framing/line.py", "unframe"): "trailing unterminated line",
+        ("rxsci/compression/z.py", "compress"): "codec flush",
+        ("rxsci/compression/z.py", "decompress"): "codec flush",
+        ("rxsci/compression/zstd.py", "compress"): "codec flush",
+        ("rxsci/compression/zstd.py", "decompress"): "codec flush",
+        ("rxsci/data/codec.py", "encode"): "incremental codec flush",
+        ("rxsci/data/codec.py", "decode"): "incremental codec flush",
     }
     for site in ctx.sites:
         if site.ctor != "create":
@@ -156,7 +156,7 @@ def rule_pr2(ctx: Ctx) -> RuleResult:
                     for m in emissions(p):
                         if m.method == "on_next" and m.role == "down":
                             emits = (cfg, p, m)
-            key = (site.module.relpath, site.short)
+            key = (site.module.relpath, site.short.split(".")[0])
             if emits is not None:
                 cfg, p, m = emits
                 r.ob(key in plain_allowed, lambda: mk_finding(
